@@ -1,13 +1,16 @@
 //! C19 harness: a case is a scripted history on one fresh connection tracker (grammar: see
 //! coq/Extract/EC19.v).  Each event becomes a real IPv4/TCP packet with a timestamp option and is
-//! pushed through the public `process_ipv4_packet` (-> tcp_process::process_tcp_ipv4 -> visit_tcp ->
+//! pushed through the public `process_ipv4_packet` / `process_ipv6_packet` (dir tokens c6/s6: the same segment
+//! between 2001:db8::1 and 2001:db8::2) (-> tcp_process::process_tcp_ipv4|6 -> visit_tcp ->
 //! uptime::check_ts_tcp); the millisecond clock that TcpTimestamp::now reads is injected through
 //! `uptime::verif_hooks` (cargo feature verif-hooks): exactly the event's `now` for that packet.
 //! Observed at TcpAnalysisResult.client_uptime / .server_uptime.
 use hnv_common::*;
 use huginn_net_tcp::uptime::verif_hooks::{clear_thread_clock, set_thread_clock_script};
-use huginn_net_tcp::{process_ipv4_packet, ConnectionKey, TcpTimestamp, UptimeOutput, UptimeRole};
+use hnv_common::pkt::Ip6;
+use huginn_net_tcp::{process_ipv4_packet, process_ipv6_packet, ConnectionKey, TcpTimestamp, UptimeOutput, UptimeRole};
 use pnet::packet::ipv4::Ipv4Packet;
+use pnet::packet::ipv6::Ipv6Packet;
 use ttl_cache::TtlCache;
 
 fn flag_byte(t: &str) -> u8 {
@@ -21,12 +24,29 @@ fn flag_byte(t: &str) -> u8 {
     }
 }
 
+const A6: [u8; 16] = [0x20, 0x01, 0x0d, 0xb8, 0, 0, 0, 0, 0, 0, 0, 0, 0, 0, 0, 1];
+const B6: [u8; 16] = [0x20, 0x01, 0x0d, 0xb8, 0, 0, 0, 0, 0, 0, 0, 0, 0, 0, 0, 2];
+
+/// IPv4 packet for dir c/s, IPv6 packet for dir c6/s6; identical TCP segment
 fn packet(dir: &str, flags: u8, sport: u16, dport: u16, tsval: u32, tsecr: u32) -> Vec<u8> {
-    let (src, dst) = if dir == "c" { ([10u8, 0, 0, 1], [10u8, 0, 0, 2]) } else { ([10u8, 0, 0, 2], [10u8, 0, 0, 1]) };
-    let mut p = Vec::with_capacity(52);
-    p.extend_from_slice(&[0x45, 0x00, 0x00, 52, 0x12, 0x34, 0x40, 0x00, 64, 6, 0, 0]);
-    p.extend_from_slice(&src);
-    p.extend_from_slice(&dst);
+    let t = tcp_segment(flags, sport, dport, tsval, tsecr);
+    match dir {
+        "c6" => Ip6::new(A6, B6).bytes(&t),
+        "s6" => Ip6::new(B6, A6).bytes(&t),
+        _ => {
+            let (src, dst) = if dir == "c" { ([10u8, 0, 0, 1], [10u8, 0, 0, 2]) } else { ([10u8, 0, 0, 2], [10u8, 0, 0, 1]) };
+            let mut p = Vec::with_capacity(52);
+            p.extend_from_slice(&[0x45, 0x00, 0x00, 52, 0x12, 0x34, 0x40, 0x00, 64, 6, 0, 0]);
+            p.extend_from_slice(&src);
+            p.extend_from_slice(&dst);
+            p.extend_from_slice(&t);
+            p
+        }
+    }
+}
+
+fn tcp_segment(flags: u8, sport: u16, dport: u16, tsval: u32, tsecr: u32) -> Vec<u8> {
+    let mut p = Vec::with_capacity(32);
     p.extend_from_slice(&sport.to_be_bytes());
     p.extend_from_slice(&dport.to_be_bytes());
     p.extend_from_slice(&1000u32.to_be_bytes()); // seq
@@ -58,8 +78,12 @@ fn run(line: &str) -> String {
         let now: u64 = ev[4].parse().unwrap();
         // one reading for this packet; a second read inside the same packet would see 0
         set_thread_clock_script(vec![now]);
-        let ip = Ipv4Packet::new(&bytes).unwrap();
-        let tok = match process_ipv4_packet(&ip, &mut tracker, None) {
+        let res = if ev[0].ends_with('6') {
+            process_ipv6_packet(&Ipv6Packet::new(&bytes).unwrap(), &mut tracker, None)
+        } else {
+            process_ipv4_packet(&Ipv4Packet::new(&bytes).unwrap(), &mut tracker, None)
+        };
+        let tok = match res {
             Err(_) => "ERR".to_string(),
             Ok(r) => match (&r.client_uptime, &r.server_uptime) {
                 (None, None) => "-".to_string(),
@@ -147,7 +171,32 @@ fn std_ep(r: &mut Rng) -> Ep {
     endpoint(r, client, cport, sport)
 }
 
+/// the same history over IPv6 (every event), or with only the server / only the client direction over IPv6
+fn to_v6(line: &str, which: u64) -> String {
+    let toks: Vec<&str> = line.split_whitespace().collect();
+    let mut o: Vec<String> = Vec::with_capacity(toks.len());
+    for ev in toks.chunks(7) {
+        let d = match (ev[0], which) { ("c", 0) | ("c", 1) => "c6", ("s", 0) | ("s", 2) => "s6", (d, _) => d };
+        o.push(format!("{} {}", d, ev[1..].join(" ")));
+    }
+    o.join(" ")
+}
+
 fn gen(r: &mut Rng, tier: &Tier, out: &mut Vec<String>) {
+    gen_v4(r, tier, out);
+    // about 30 % of all histories run over IPv6 (process_ipv6_packet): copies of 3/7 of the IPv4 histories,
+    // most of them entirely IPv6, some with one direction over IPv6 and the other over IPv4 on the same tracker
+    let n = out.len();
+    for i in 0..n {
+        if r.chance(3, 7) {
+            let which = if r.chance(5, 6) { 0 } else { r.range(1, 2) };
+            let l = to_v6(&out[i], which);
+            out.push(l);
+        }
+    }
+}
+
+fn gen_v4(r: &mut Rng, tier: &Tier, out: &mut Vec<String>) {
     // ---- exhaustive-small: every integer raw frequency 0..1600 Hz at 1000 ms, and every advance over
     //      0..1600 Hz at other intervals (short intervals completely, long ones around each integer Hz)
     let ep_c = Ep { dir: "c", first: "syn", later: "ack", sp: 40000, dp: 80 };
